@@ -266,6 +266,11 @@ class C09(Check):
                             continue
                         if nd == 0:
                             want += w * yn[s]          # current value, as handed to this very evaluation
+                        elif cfg.get('emulate') == 'roll_per_evaluation':
+                            # defect model of KF-C09-heun-double-roll: the ring buffer advances once per EVALUATION
+                            if e - nd >= 0:
+                                want += w * float(np.asarray(E[e - nd][1]).reshape(-1)[pos[s]])
+                                active = True
                         elif k - nd >= 0:
                             want += w * traj[k - nd][s]
                             active = True
@@ -345,7 +350,10 @@ class C09(Check):
             t['cfg']['solver'] = 'euler'
             return t
 
-        return [KF('KF-C09-heun-double-roll', heun, ab_heun)]
+        def explain(t):
+            t['cfg']['emulate'] = 'roll_per_evaluation'
+            return t
+        return [KF('KF-C09-heun-double-roll', heun, ab_heun, explain=explain)]
 
 
 CHECK = C09()
